@@ -75,6 +75,40 @@ def lattice_part(chk: Check, tier):
 
 
 # ---------------------------------------------------------------------------------------------- builtin permutations
+def shared_shape_check(chk: Check, pick, M, coords):
+    """Spectral megacomplex in which the first and the third compartment share ONE shape item (compartments that share a shape need not be
+    declared next to each other).  Identical columns cannot be fitted, so this is judged on the matrix alone: the column under each label
+    is the same in the identity and in the permuted declaration order, and equals the column of a megacomplex with that compartment only."""
+    import numpy as np
+    from glotaran.model.item import fill_item
+    from glotaran.optimization.matrix_provider import MatrixProvider
+    from glotaran.parameter import Parameters
+    n = pick["n"]
+    if pick["type"] != "spectral" or n < 3 or pick["partner"] != "baseline" or pick.get("two"):
+        return
+    cols = {}
+    for permuted in (False, True):
+        md, par = builtin_model(pick, permuted)
+        shp = md["megacomplex"]["m_main"]["shape"]
+        md["megacomplex"]["m_main"]["shape"] = {k: ("sh1" if k == "s3" else v) for k, v in shp.items()}
+        model, params = M(**md), Parameters.from_dict(par)
+        cont = MatrixProvider.calculate_dataset_matrix(fill_item(model.dataset["ds"], model, params), coords["time"], coords["spectral"])
+        mat = np.asarray(cont.matrix)
+        cols[permuted] = {l: (mat[..., j] if mat.ndim == 2 else mat[0][..., j]) for j, l in enumerate(cont.clp_labels)}
+    chk.evaluations += 1
+    key = "LabelPerms[spectral]: shape shared by non-adjacent compartments"
+    rep = {"engine": "c06-builtin", "pick": pick}
+    if set(cols[False]) != set(cols[True]):
+        chk.violation(key + " labels", f"perm={pick['perm']}: labels {sorted(cols[True])} vs {sorted(cols[False])}", rep)
+        return
+    for l in cols[False]:
+        if not np.allclose(cols[False][l], cols[True][l], rtol=1e-12, atol=0):
+            chk.violation(key + " column", f"perm={pick['perm']} revmc={pick['revmc']}: the column under {l!r} depends on the declaration order", rep)
+            return
+    if not np.allclose(cols[False]["s1"], cols[False]["s3"], rtol=1e-12, atol=0) or np.allclose(cols[False]["s1"], cols[False]["s2"], rtol=1e-6, atol=0):
+        chk.violation(key + " sharing", f"perm={pick['perm']}: s1 and s3 share a shape and must have equal columns, s2 has another shape", rep)
+
+
 def builtin_model(pick, permuted: bool):
     """-> (model_dict, params_dict, model_dim, label_coords) for identity (permuted=False) or permuted declaration order."""
     n = pick["n"]
@@ -211,6 +245,7 @@ def compare_builtin(chk: Check, pick):
     with warnings.catch_warnings():
         warnings.simplefilter("ignore")
         try:
+            shared_shape_check(chk, pick, M, coords)
             md0, par0 = builtin_model(pick, False)
             model0, params0 = M(**md0), Parameters.from_dict(par0)
             mdim = "spectral" if t == "spectral" else "time"
